@@ -83,11 +83,11 @@ def plan(tier, seed):
     q = tier == 'quick'
     tasks = []
     fams = [('grow3-CNO', c01.ELEMS_3, 3), ('grow4-CO', (('C', 0), ('O', 0)), 4)] if q else \
-        [('grow4-CNOCl', c01.ELEMS_4, 4), ('grow5-CNO', c01.ELEMS_3, 5)]
+        [('grow4-CNOCl', c01.ELEMS_4, 4), ('grow5-CO', (('C', 0), ('O', 0)), 5)]
     for name, elems, n in fams:
         mols, ex = c01.enumerate_molecules(elems, n)
         for i in range(0, len(mols), 8):
-            tasks.append({'space': name, 'mols': mols[i:i + 8], 'max_frag': 4 if (n <= 3 or not q) else 3, 'level': 'full' if n <= 3 else 'lite',
+            tasks.append({'space': name, 'mols': mols[i:i + 8], 'max_frag': 3 if (n >= 5 or (n == 4 and q)) else 4, 'level': 'full' if n <= 3 else 'lite',
                           'pre': (ex.states, ex.transitions) if i == 0 else (0, 0)})
     for nm in sorted(M.FEATURE):
         mol = M.FEATURE[nm]
